@@ -1,5 +1,5 @@
 (* Proofs about the framing model, part 5: for ARBITRARY input bytes and any decoder state,
-   one Decode requests at most MaxMessageSize bytes of buffers, accepts at most 513 segments,
+   one Decode requests at most MaxMessageSize bytes of buffers, accepts at most 512 segments,
    and never panics. *)
 From CV Require Import Frame.Frame.
 From CV Require Import Frame.FrameProofs.
@@ -110,9 +110,9 @@ Proof. unfold eff_max, default_decode_limit. destruct (mx =? 0); lia. Qed.
 
 (* C14, allocation half.  For ALL input bytes, all chunkings, any decoder state (buffer
    capacities, reuse flag) and any MaxMessageSize: the byte buffers requested by one Decode
-   (header + data) sum to at most the effective limit; the segment table has at most 513
-   entries (the code rejects maxSeg > 512, i.e. it accepts 513 segments, one more than
-   maxStreamSegments says); Decode does not panic; a returned message has 1..513 whole-word
+   (header + data) sum to at most the effective limit; the segment table has at most 512
+   entries (= maxStreamSegments; the repaired code rejects maxSeg >= 512, the code as found accepted
+   513, see accepts_513_refuted); Decode does not panic; a returned message has 1..512 whole-word
    segments and its framed size is within the limit. *)
 Theorem alloc_bound cs fin hc bc ru mx st' out log :
   bytes_ok (concat cs) -> 0 <= mx < two64 ->
